@@ -1,4 +1,5 @@
 import PdfModel.Core.Out
+import PdfModel.Model.Lzw
 
 /-!
 # Model of `pdf/src/enc.rs` (stream filters) and of the filter-chain plumbing around it
@@ -24,14 +25,16 @@ white-space, LZW code size, predictor 10, encoders with a predictor); the behavi
 | `unpredict` (PNG row loop with its offsets and slices)   | `unpredict`, `pngLoop`                    |
 | `tiff_unpredict` (`get`/`set` of packed samples, `chunks_mut`) | `tiffUnpredict`, `tiffRow`, `tiffGet`, `tiffSet` |
 | `flate_decode` (zlib first, raw deflate second)          | `flateDecode`                             |
-| `lzw_decode` (EarlyChange switch)                        | `lzwDecode`                               |
+| `lzw_decode` (EarlyChange switch; weezl's decoder = `Model/Lzw.lean`) | `lzwDecode`, `Lzw.decode`      |
 | `decode`, `encode` (dispatch)                            | `decode`, `encode`                        |
 | `Stream::data` (object/stream.rs), `Storage::decode` (file.rs): fold over the filters, stop at the first error | `decodeChain` |
 | `StreamInfo::from_primitive` (object/stream.rs): `/Filter` + `/DecodeParms` pairing | `pairFilters`, `nameList`, `parmList` |
 
-Third-party code is a parameter (`Ext`): libflate's zlib and raw-deflate decoders, weezl's LZW decoder
-(both size switches), the zlib / LZW encoders, jpeg-decoder. Nothing is assumed about them here; the
-theorems state what they need as hypotheses.
+Third-party code is a parameter (`Ext`): libflate's zlib and raw-deflate decoders, the zlib / LZW
+*encoders*, jpeg-decoder. Nothing is assumed about them here; the theorems state what they need as
+hypotheses. weezl's LZW *decoder* is not a parameter any more: it is modelled (`Model/Lzw.lean`) and tied to
+the crate by the correspondence streams `c05.lzw.decode*`; what weezl's encoder emits is checked against
+the encoder relation of `Spec/Lzw.lean` by `c16.lzw.encode`.
 
 Conventions: a Rust `Err(_)` is `.err`, a panic is `.panic`; loops that are not structurally recursive
 take fuel and end in `.oof` when it runs out (`Lemmas/Enc*.lean` prove that the fuel handed out by the
@@ -392,8 +395,6 @@ def unpredict (decoded : Bytes) (p : Params) : Out Bytes :=
 structure Ext where
   inflateZlib : Bytes → Option Bytes
   inflateRaw : Bytes → Option Bytes
-  /-- weezl MSB decoder with 8-bit symbols; `true` = `with_tiff_size_switch` -/
-  lzw : Bool → Bytes → Option Bytes
   dct : Bytes → Option Bytes
   zlibEncode : Bytes → Bytes
   lzwEncode : Bytes → Option Bytes
@@ -406,10 +407,12 @@ def flateDecode (X : Ext) (data : Bytes) (p : Params) : Out Bytes :=
     | some d => unpredict d p
     | none => .err
 
-def lzwDecode (X : Ext) (data : Bytes) (p : Params) : Out Bytes :=
-  match X.lzw (p.earlyChange ≠ 0) data with
-  | some d => unpredict d p
-  | none => .err
+/-- `lzw_decode`: weezl's MSB decoder with 8-bit symbols is modelled by `Lzw.decode` (`Model/Lzw.lean`);
+    `true` = `with_tiff_size_switch` -/
+def lzwDecode (data : Bytes) (p : Params) : Out Bytes :=
+  match Lzw.decode (p.earlyChange ≠ 0) data with
+  | .ok d => unpredict d p
+  | .err => .err | .panic => .panic | .oof => .oof
 
 inductive Filter where
   | asciiHex | ascii85 | lzw (p : Params) | flate (p : Params) | jpx | dct | ccittFax | jbig2 | crypt | runLength
@@ -418,7 +421,7 @@ deriving Repr, DecidableEq, Inhabited
 def decode (X : Ext) (data : Bytes) : Filter → Out Bytes
   | .asciiHex => decodeHex data
   | .ascii85 => decode85 data
-  | .lzw p => lzwDecode X data p
+  | .lzw p => lzwDecode data p
   | .flate p => flateDecode X data p
   | .runLength => runLengthDecode data
   | .dct => match X.dct data with | some d => .ok d | none => .err
